@@ -1,0 +1,29 @@
+//go:build verif
+
+// Machine-checked contracts for package rpc (comment-only; see /verif/DESIGN.md).
+
+package rpc
+
+//@ func toSendLargeFileChunks
+//@   requires len(file.Content) <= 1099511627776
+//@   ensures[C29.nonempty] len(result) >= 1
+//@   ensures[C29.count]    len(result) == (len(file.Content) + 2047) / 2048
+//@   ensures[C29.chunks]   forall k :: 0 <= k < len(result) ==> result[k] != nil
+//@                            && arr(result[k].Chunk) == arr(file.Content)
+//@                            && off(result[k].Chunk) == off(file.Content) + k*2048
+//@                            && len(result[k].Chunk) == min(2048, len(file.Content) - k*2048)
+//@   ensures[C29.meta]     forall k :: 0 <= k < len(result) ==> result[k].IDs == ids && result[k].Dst == file.Filename
+//@                            && result[k].Size == len(file.Content) && result[k].Mode == file.Mode
+//@                            && result[k].UID == file.UID && result[k].GID == file.GID
+//@   loop 1:
+//@     invariant idx >= 0 && idx == len(ret) * 2048 && maxChunkSize == 2048
+//@     invariant idx < len(file.Content) + 2048
+//@     invariant fresh(ret) && allocated(ret)
+//@     invariant forall k :: 0 <= k < len(ret) ==> ret[k] != nil && allocated(ret[k]) && fresh(ret[k])
+//@                            && arr(ret[k].Chunk) == arr(file.Content)
+//@                            && off(ret[k].Chunk) == off(file.Content) + k*2048
+//@                            && len(ret[k].Chunk) == min(2048, len(file.Content) - k*2048)
+//@     invariant[C29.meta] forall k :: 0 <= k < len(ret) ==> ret[k].IDs == ids && ret[k].Dst == file.Filename
+//@                            && ret[k].Size == len(file.Content) && ret[k].Mode == file.Mode
+//@                            && ret[k].UID == file.UID && ret[k].GID == file.GID
+//@     decreases len(file.Content) + 2048 - idx
